@@ -680,7 +680,7 @@ def unhex(s):
 
 def c18_scenario(rep, rng, scratch, idx):
     V, INC = [], []
-    kind = rng.choice(["exec", "exec", "shell-none", "shell-custom"])
+    kind = rng.choice(["exec", "exec", "shell-none", "shell-custom", "shell-custom", "shell-env"])
     wrap = rng.choice(["group", "session", "none"])
     args = [rng.choice(ARG_POOL) for _ in range(rng.randint(0, 6))]
     name = "c18-%d" % idx
@@ -709,8 +709,22 @@ def c18_scenario(rep, rng, scratch, idx):
         opts = [rng.choice(["-x", "opt1", "--flag=1", "o"]) for _ in range(rng.randint(0, 2))]
         # the helper *is* the shell: it must be called as <shell> <options...> -c "<words joined by single spaces>"
         words = [w for w in args if w != ""] or ["true"]
-        override = ["--shell=" + " ".join([VCHILD] + opts), "--"] + words
         expected = [VCHILD.encode()] + [o.encode() for o in opts] + [b"-c", " ".join(words).encode()]
+        if kind == "shell-env":
+            # no --shell at all: the shell named by $SHELL, no options
+            opts = []
+            expected = [VCHILD.encode(), b"-c", " ".join(words).encode()]
+            env["SHELL"] = VCHILD
+            override = ["--"] + words
+        else:
+            # the shell and its options are separated by blanks: one, several, a tab, blanks around the whole value
+            sep = rng.choice([" ", " ", "  ", "\t", " \t "])
+            val = sep.join([VCHILD] + opts)
+            if rng.random() < 0.3:
+                val = rng.choice([" ", ""]) + val + rng.choice([" ", "  ", "\t"])
+            override = ["--shell=" + val, "--"] + words
+            if sep != " " or val != val.strip():
+                rep.count("cli_shell_values_with_irregular_blanks", 1)
     desc = {"kind": kind, "wrap": wrap, "args": args, "prog": os.path.relpath(prog, d) if prog != VCHILD else "helper"}
     wx = Wx(scratch, name, flags, [], extra_env=env, cmd_override=override)
     wx.log = log
@@ -929,8 +943,12 @@ def c12_scenario(rep, rng, scratch, idx):
 def c17_scenario(rep, rng, scratch, idx):
     V, INC = [], []
     name = "c17-%d" % idx
-    wx = Wx(scratch, name, ["--postpone", "--debounce", "120ms", "--emit-events-to=environment"], ["--dump", "--exit-after", "5", "--no-overlap-probe"])
-    desc = {"kind": "c17-e2e"}
+    # how the batch reaches the command: the environment summary, or the line-based / JSON formats through a file
+    # named in the environment or through the command's standard input
+    mode = rng.choice(["environment", "environment", "file", "stdio", "json-file", "json-stdio"])
+    copts = ["--dump", "--exit-after", "5", "--no-overlap-probe"] + (["--read-stdin"] if mode.endswith("stdio") else [])
+    wx = Wx(scratch, name, ["--postpone", "--debounce", "120ms", "--emit-events-to=" + mode], copts)
+    desc = {"kind": "c17-e2e", "emit": mode}
     try:
         if not inotify_ready(wx.p.pid):
             INC.append("watchexec-not-ready")
@@ -979,6 +997,10 @@ def c17_scenario(rep, rng, scratch, idx):
         if LOAD.max_gap_ms(t_burst) > 40:
             INC.append("machine-stalled-during-debounce-window")
             return desc, wx, V, INC
+        if mode != "environment":
+            c17_lines_mode(rep, wx, mode, env, [l for l in lines if l["pid"] == pid], files, V, INC)
+            desc["files"] = files
+            return desc, wx, V, INC
         rep.count("c17_e2e_environments", 1)
         common = env.get("WATCHEXEC_COMMON_PATH")
         if common is None:
@@ -1003,6 +1025,69 @@ def c17_scenario(rep, rng, scratch, idx):
     finally:
         pass
     return desc, wx, V, INC
+
+
+def c17_lines_mode(rep, wx, mode, env, mylines, files, V, INC):
+    """The batch as the command received it through a file or its standard input (line-based or JSON lines)."""
+    import json as _json
+    if mode.endswith("stdio"):
+        got = [l for l in mylines if l["ev"].startswith("stdin ")]
+        if not got:
+            INC.append("no-stdin-dump")
+            return
+        data = bytes.fromhex(got[0]["ev"][6:].strip())
+    else:
+        path = env.get("WATCHEXEC_EVENTS_FILE")
+        if not path:
+            V.append(("C17/e2e/no-events-file", "--emit-events-to=%s: the command saw no WATCHEXEC_EVENTS_FILE (%s)" % (mode, sorted(env))))
+            return
+        try:
+            with open(path, "rb") as fh:
+                data = fh.read()
+        except OSError as e:
+            INC.append("events-file-unreadable")
+            return
+    rep.count("c17_e2e_batches_through_%s" % mode.replace("-", "_"), 1)
+    text = data.decode("utf8", "replace")
+    root = os.path.realpath(wx.proj)
+    want = {os.path.normpath(os.path.join(root, f)) for f in files}
+    seen = set()
+    rows = [r for r in text.split("\n") if r]
+    if mode.startswith("json"):
+        for r in rows:
+            try:
+                ev = _json.loads(r)
+            except ValueError:
+                V.append(("C17/e2e/json-line-unparsable", "--emit-events-to=%s: line %r is not a JSON object" % (mode, r[:200])))
+                return
+            tags = ev.get("tags") if isinstance(ev, dict) else None
+            if not isinstance(tags, list) or not tags:
+                V.append(("C17/e2e/json-line-without-tags", "--emit-events-to=%s: line %r has no tags" % (mode, r[:200])))
+                continue
+            for t in tags:
+                if isinstance(t, dict) and t.get("kind") == "path" and "absolute" in t:
+                    seen.add(os.path.normpath(t["absolute"]))
+    else:
+        pairs = []
+        for r in rows:
+            kind, sep, path = r.partition(":")
+            if not sep or kind not in ("create", "modify", "remove", "access", "other") or not path.startswith("/"):
+                V.append(("C17/e2e/line-malformed", "--emit-events-to=%s: line %r is not <kind>:<absolute path>" % (mode, r[:200])))
+                continue
+            pairs.append((kind, path))
+            seen.add(os.path.normpath(path))
+        rep.count("c17_e2e_lines", len(pairs))
+        # a file that was created and written shows up under both kinds
+        for w in want:
+            kinds = {k for k, p in pairs if os.path.normpath(p) == w}
+            if kinds and not (kinds & {"create", "modify"}):
+                V.append(("C17/e2e/line-kind", "a created and written file is listed only as %s" % sorted(kinds)))
+    missing = want - seen
+    if missing:
+        V.append(("C17/e2e/changed-path-not-listed", "--emit-events-to=%s: changed files %s are not in what the command received: %r" % (mode, sorted(missing), text[:600])))
+    stray = {x for x in seen if not x.startswith(root)}
+    if stray:
+        V.append(("C17/e2e/entry-outside-project", "entries %s do not lie in the watched project" % sorted(stray)))
 
 
 # ------------------------------------------------------------------------------------------------
